@@ -54,6 +54,18 @@ theorem stepwise_roundtrip_anyopts_counterexample : ¬ stepwise_roundtrip_anyopt
   revert this
   decide
 
+/-! ### policy constructor options -/
+
+/-- **obligation (translator tie)**: `AttentionModelPolicy.__init__` passes `mask_logits` (and `temperature`,
+`tanh_clipping`) on unchanged — in particular the output logits are masked whenever the user asked for it,
+whatever `mask_inner` is -/
+theorem policyMaskLogits_eq (ctorArg other : Bool) : policyMaskLogits ctorArg other = ctorArg := by
+  simp [policyMaskLogits, Params.amCtorDecodingArgsPassedThrough]
+
+/-- the default (`mask_logits=True`) policy masks its output logits for every value of `mask_inner` -/
+theorem policy_masks_by_default (maskInner : Bool) : policyMaskLogits true maskInner = true :=
+  policyMaskLogits_eq true maskInner
+
 /-! ### forced first move, per-step path, entropy: the property text made literal -/
 
 /-- **obligation (translator tie)**: the multi-start pre-decoder hook takes the forced first moves from the
